@@ -42,6 +42,7 @@ type dirCase struct {
 	Conns      int         `json:"conns"`
 	Requests   int         `json:"requests"` // per connection, pipelined
 	MultiKey   bool        `json:"multi_key"`
+	Migrating  bool        `json:"migrating"` // the keys' slots are half-migrated: requests are redirected by ASK (ASKING+command pairs)
 	Directives []directive `json:"directives"`
 }
 
@@ -84,6 +85,18 @@ func checkDirected(c dirCase) (inf dirInfo, v *verdict) {
 	}()
 	if !px.WaitTableLoaded(1, 10*time.Second) {
 		return inf, &verdict{"table-not-loaded", "routing table not loaded within 10s"}
+	}
+	tagKeys := []string{"{a}", "{b}", "{c}", "{d}", "{e}"}
+	if c.Migrating && len(ms) >= 2 {
+		for _, tg := range tagKeys {
+			slot := ref.Slot([]byte(tg))
+			from := w.Owner(slot)
+			to := ms[0]
+			if to == from {
+				to = ms[1]
+			}
+			w.BeginMigration(slot, to)
+		}
 	}
 	// install the schedule
 	var mu sync.Mutex
@@ -167,6 +180,10 @@ func checkDirected(c dirCase) (inf dirInfo, v *verdict) {
 			for i := 0; i < c.Requests; i++ {
 				m := ms[(i+ci)%len(ms)]
 				k := w.KeyFor(m, fmt.Sprintf("c%d:%d:", ci, i%5))
+				if c.Migrating {
+					// keys of the half-migrated slots: absent at the source, so every command is redirected by ASK
+					k = fmt.Sprintf("%sc%d:%d", tagKeys[(i+ci)%len(tagKeys)], ci, i)
+				}
 				if c.MultiKey && i%4 == 3 {
 					k2 := w.KeyFor(ms[(i+ci+1)%len(ms)], fmt.Sprintf("c%d:m%d:", ci, i%5))
 					if i%8 == 3 {
@@ -274,7 +291,7 @@ func parked(d1, d2 string) string {
 
 func genDirected(t *rapid.T) dirCase {
 	c := dirCase{Masters: rapid.IntRange(1, 3).Draw(t, "masters"), Conns: rapid.IntRange(1, 3).Draw(t, "conns"),
-		Requests: rapid.IntRange(1, 30).Draw(t, "requests"), MultiKey: rapid.Bool().Draw(t, "multikey")}
+		Requests: rapid.IntRange(1, 30).Draw(t, "requests"), MultiKey: rapid.Bool().Draw(t, "multikey"), Migrating: rapid.IntRange(0, 3).Draw(t, "migrating") == 0}
 	nd := rapid.SampledFrom([]int{1, 1, 1, 2}).Draw(t, "ndir")
 	for i := 0; i < nd; i++ {
 		c.Directives = append(c.Directives, directive{
@@ -286,6 +303,46 @@ func genDirected(t *rapid.T) dirCase {
 		})
 	}
 	return c
+}
+
+// genDirectedAsk biases towards the window in which a backend client is shutting down (quit closed, final drain not
+// done yet) while ASK redirections keep sending ASKING+command pairs to it.
+func genDirectedAsk(t *rapid.T) dirCase {
+	c := dirCase{Masters: rapid.IntRange(2, 3).Draw(t, "masters"), Conns: rapid.IntRange(2, 4).Draw(t, "conns"),
+		Requests: rapid.IntRange(10, 60).Draw(t, "requests"), Migrating: true}
+	node := rapid.IntRange(0, 2).Draw(t, "node")
+	c.Directives = append(c.Directives, directive{
+		Point:  rapid.SampledFrom([]string{"redis.client.send.enter", "redis.client.read.before-dequeue", "redis.client.write.got-req", "redis.client.write.before-processing-enqueue"}).Draw(t, "p1"),
+		Nth:    rapid.IntRange(1, 10).Draw(t, "nth"),
+		Node:   node,
+		Fault:  rapid.SampledFrom([]string{"drop", "rst", "remove", "replace", "restart"}).Draw(t, "fault"),
+		HoldMs: rapid.SampledFrom([]int{0, 1, 5}).Draw(t, "hold1"),
+	})
+	c.Directives = append(c.Directives, directive{
+		Point:  rapid.SampledFrom([]string{"redis.client.start.before-drain", "redis.client.start.after-drain", "redis.client.start.before-drain"}).Draw(t, "p2"),
+		Nth:    1,
+		Node:   node,
+		Fault:  "none",
+		HoldMs: rapid.SampledFrom([]int{5, 20, 50}).Draw(t, "hold2"),
+	})
+	return c
+}
+
+func TestDirectedAsk(t *testing.T) {
+	rapid.Check(t, func(t *rapid.T) {
+		c := genDirectedAsk(t)
+		vh.CurrentCase(prop, "directed", c)
+		inf, v := checkDirected(c)
+		vh.ClearCurrentCase()
+		if v != nil {
+			vh.Fail(t, vh.Failure{Property: prop, Part: "directed", Signature: v.sig, Message: v.msg, Case: c})
+		}
+		vh.Rec().Case("directed-ask", inf.fired >= 2, vh.JSON(c))
+		if inf.fired >= 2 {
+			vh.Rec().Class("directed-ask", "client_shutdown_window_held_during_ASK_traffic")
+		}
+		vh.Rec().Sample("directed-ask", inf.fired >= 2, func() interface{} { return c })
+	})
 }
 
 func TestDirected(t *testing.T) {
